@@ -433,3 +433,67 @@ _tu1 = units
 
 def units():
     return _tu1() + cyclotomic_units()
+
+
+# ---------------------------------------------------------------------------
+# The tower's PREDICATES (equal, is_zero, is_one): every unit above treats them as abstract decisions; here their bodies are put under contract.
+#   F::equal(a, b)  <=>  every pair of corresponding F_q coordinates is equal        F::is_zero()  <=>  every coordinate is zero
+# RING back end with F_q leaves: coordinates are distinct indeterminates, so each leaf-level test is a recorded decision about one polynomial.
+# On every path:  a result `true` must rest on decisions that establish ALL n coordinate facts (a_i - b_i == 0, resp. a_i == 0, each for its own i);
+# a result `false` must rest on a decision that refutes ONE of them.  A body that tests a coordinate twice and another one never, or compares
+# a.c0 with b.c1, has a path whose verdict is not supported by its decisions.
+def gen_tower_predicates(tu):
+    from symx import Interp, Leaf, Obj
+    from ringdom import leaves_of
+    from scen import guarded
+    for F in ("Fq2", "Fq6", "Fq12"):
+        for pred in ("equal", "is_zero"):
+            qs = [q for q in tu.by_qname if q == "%s::%s" % (F, pred) and tu.by_qname[q].body is not None]
+            if not qs:
+                continue
+            f = tu.func(qs[0])
+
+            def run(path, f=f, F=F, pred=pred):
+                dom = RingDomain({"Fq"})
+                I = Interp(tu, dom)
+                I.path = path
+                a, b = I.new_object(F), I.new_object(F)
+                la, lb = leaves_of(a, "a", {}), leaves_of(b, "b", {})
+                for k, (nm, lf) in enumerate(sorted(la.items())):
+                    lf.val = Poly.var("a%d" % k)
+                for k, (nm, lf) in enumerate(sorted(lb.items())):
+                    lf.val = Poly.var("b%d" % k)
+                n = len(la)
+                before = len(path.trace)
+                ret = I.call(f, None, [a, b]) if pred == "equal" else I.call(f, a, [])
+                ret = 1 if I.rv(ret) else 0
+                facts = {}
+                for (lab, d) in path.trace[before:]:
+                    if isinstance(lab, tuple) and lab and lab[0] == "is_zero":
+                        facts[lab[2] if isinstance(lab[2], Poly) else lab[-1]] = bool(d)
+                want = [(Poly.var("a%d" % k) - Poly.var("b%d" % k)) if pred == "equal" else Poly.var("a%d" % k) for k in range(n)]
+
+                def known(p):
+                    for q_, v in facts.items():
+                        if isinstance(q_, Poly) and ((q_ - p).is_zero() or (q_ + p).is_zero()):
+                            return v
+                    return None
+                ks = [known(p) for p in want]
+                if ret:
+                    ok = all(v is True for v in ks)
+                    msg = "returns true although coordinates %s were never established %s" % ([k for k, v in enumerate(ks) if v is not True], "equal" if pred == "equal" else "zero")
+                else:
+                    ok = any(v is False for v in ks)
+                    msg = "returns false although no coordinate was found %s" % ("different" if pred == "equal" else "non-zero")
+                return [("%s::%s: the verdict rests on the right coordinate facts (%d coordinates)" % (F, pred, n), "ok" if ok else "fail", "" if ok else msg, None)]
+            yield "%s::%s" % (F, pred), guarded(run)
+
+
+_tu2 = units
+
+
+def units():
+    from scen import ScenUnit
+    return _tu2() + [ScenUnit("tower predicates: Fq2 / Fq6 / Fq12 equal and is_zero decide every coordinate", ["C04", "C05", "C09"], gen_tower_predicates, max_paths=20000,
+                              contracts_used=["Fq::equal / Fq::is_zero (C02: BigInt compare / is_zero, BV units)"],
+                              note="the units of the upper layers treat these predicates as abstract decisions; this unit is where their bodies are enforced")]
